@@ -140,6 +140,42 @@ def commit_changes_claims_nothing_before_validation(repo=None):
     return rep
 
 
+
+def btree_commit_sorts_stably(repo=None):
+    """Operations of one transaction on the same btree key must take effect in the order given. BTreeChangeSet::write_plan
+    sorts the operations by key (Operation::cmp compares keys only, U24) before applying them: that preserves the per-key
+    order only if the sort is a stable one. Small inputs cannot tell a stable from an unstable sort by execution (U41 uses
+    two operations), hence this text-level side condition."""
+    repo = repo or scratch.REPO
+    name = "U41.write_plan.operations_are_sorted_with_a_stable_sort"
+    rep = {"unit": "syntactic:btree_commit_sorts_stably", "status": "undecided", "reason": "", "failed": [],
+           "named": [name], "obligations": 1, "verified": 0, "errors": 0,
+           "cmd": "text check on BTreeChangeSet::write_plan in src/btree/mod.rs", "wall_s": 0.0,
+           "functions": ["btree::commit_overlay::BTreeChangeSet::write_plan"], "trusted_scan": {"syntactic-check (not a proof)": 1}, "smt_s": 0}
+    try:
+        src = open(os.path.join(repo, "src/btree/mod.rs")).read()
+        start, fnpos, body_open, end = extract.find_fn(src, "write_plan", impl="BTreeChangeSet")
+    except (extract.LostAnchor, OSError) as e:
+        rep["reason"] = "write_plan not found: %s" % e
+        return rep
+    body = re.sub(r"//[^\n]*", "", src[body_open:end])
+    unstable = re.search(r"\.\s*(sort_unstable\w*|select_nth_unstable\w*)\s*\(", body)
+    stable = re.search(r"\.\s*(sort|sort_by|sort_by_key|sort_by_cached_key)\s*\(", body)
+    if unstable:
+        rep["status"] = "failed"
+        rep["errors"] = 1
+        why = "the operations of a transaction are ordered with an unstable sort (%s): operations on the same key may be reordered" % unstable.group(1)
+        rep["failed"].append({"obligation": name, "clause": why, "function": "BTreeChangeSet::write_plan",
+                              "diag": "text check failed: " + why, "text": src[start:end][:6000]})
+    elif stable:
+        rep["status"] = "verified"
+        rep["verified"] = 1
+    else:
+        rep["reason"] = "no sort call in write_plan (code restructured)"
+    return rep
+
+
 CHECKS = {"commit_raw_checks_before_publish": commit_raw_checks_before_publish,
           "claim_tree_values_checks_before_claim": claim_tree_values_checks_before_claim,
-          "commit_changes_claims_nothing_before_validation": commit_changes_claims_nothing_before_validation}
+          "commit_changes_claims_nothing_before_validation": commit_changes_claims_nothing_before_validation,
+          "btree_commit_sorts_stably": btree_commit_sorts_stably}
